@@ -165,7 +165,11 @@ class NPLinalg(Forward):
         if _issym(v):
             _hit('np.linalg.norm')
             a = _obj(v)
-            if axis is not None: raise core.Concretised("norm with axis on symbolic array")
+            if axis is not None:
+                if a.ndim == 1 and axis in (0, -1): axis = None
+                elif a.ndim == 2 and axis == 0:
+                    return _np.array([self.norm(a[:, j], ord=ord) for j in range(a.shape[1])], dtype=object)
+                else: raise core.Concretised("norm with axis on symbolic array")
             if ord in (None, 2, 'fro'):
                 return _np.sqrt(_np.sum(a.reshape(-1) ** 2))
             if ord == 1: return _np.sum(_np.abs(a.reshape(-1)))
@@ -392,9 +396,6 @@ class NPShim(Forward):
     def dtype(self, *a, **k):
         d = _np.dtype(*a, **k)
         return _NeverEqualDtype() if d == object else d
-    def finfo(self, *a, **k):
-        f = _np.finfo(*a, **k)
-        return types.SimpleNamespace(eps=SReal(core.EPS), max=f.max, min=f.min, tiny=f.tiny)
     def sum(self, a, *args, **k):
         if isinstance(a, SReal): return a
         if isinstance(a, STag): a = a.a
@@ -530,6 +531,7 @@ def sym_cholesky(P, lower=True):
 # ---------------------------------------------------------------------------------------------
 _SAVED = []
 NP = NPShim()
+NP_REAL_MODULES = {'cuqi.operator._operator'}      # modules that only build constant matrices: numpy stays the real one
 
 
 def default_table():
@@ -554,6 +556,7 @@ def install(extra=None):
         if mod is None or not (mname == 'cuqi' or mname.startswith('cuqi.')): continue
         d = getattr(mod, '__dict__', None)
         if d is None: continue
+        if mname in NP_REAL_MODULES: continue
         if 'np' in d and d['np'] is _np:
             _SAVED.append((mod, 'np', d['np'])); d['np'] = NP
     for mname, names in (extra or {}).items():
@@ -674,6 +677,22 @@ class SPS(Forward):
         super().__init__(_sps, 'scipy.stats')
         object.__setattr__(self, 'gamma', _GammaLaw('gamma')); object.__setattr__(self, 'invgamma', _InvGammaLaw('invgamma'))
         object.__setattr__(self, 'beta', _BetaLaw('beta')); object.__setattr__(self, 'cauchy', _CauchyLaw('cauchy'))
+
+
+def symbolize_operators(obj):
+    """entry-exact object copies (STag) of the constant sparse matrices held by cuqi Operators reachable from obj,
+    so that they can meet symbolic operands (scipy.sparse refuses object dtype)"""
+    seen = set()
+    def visit(o):
+        if id(o) in seen or o is None: return
+        seen.add(id(o))
+        m = getattr(o, '_matrix', None)
+        if m is not None and _sparse.issparse(m):
+            o._matrix = STag(_to_obj_matrix(m), m.format)
+        for nm in ('_prec_op', '_diff_op'):
+            if hasattr(o, nm): visit(getattr(o, nm))
+    visit(obj)
+    return obj
 
 
 def erf_shim(x):
